@@ -7,8 +7,8 @@
   iteration `k` returned the patched version `p` (applied by the server at `k.tp`), no step of `mid`
   patched, so `(p, k.tp)` is the last own patch when iteration `i` is processed. `mid` holds the
   foreign events (any number of them), possibly with retirements of the idle worker in between.
-  `wf` = the clock does not run backwards, a PATCH is applied before the processor returns, and a
-  worker retires only after its idle wait `max(idle_timeout, consistency_time - now)` has timed out.
+  `wf` = the clock does not run backwards, a PATCH is applied after its iteration began and before the
+  processor returns, and a worker retires only after its idle wait `max(idle_timeout, consistency_time - now)` has timed out.
 -/
 import Kopf.Lemmas.C07_Barrier
 namespace Kopf.C07
@@ -46,6 +46,46 @@ theorem independent_of_foreign_count (n : Nat) (T idle : Int) (pre mid post : Li
     (hran : (outcomeAt T (exec T Cfg.init (pre ++ .event k :: mid)) i).handlers = some t) :
     some p ∈ mid.map Step.ver ++ [i.ver] ∨ k.tp + T ≤ t :=
   barrier T idle pre mid post k i p t hwf hk hmid hran
+
+/-- The same for EVERY earlier own patch, not only the last one: if iteration `k` patched (at `k.tp`)
+    and change handlers run later in iteration `i`, then there is a last own patch `(q, j.tp)` made at
+    or after `k`'s (`k.tp ≤ j.tp`) whose version was dequeued after it, or whose timeout — hence also
+    `k`'s — has elapsed. (`mid` may now contain further patches.) -/
+theorem barrier_every_patch (T idle : Int) (pre mid post : List Step) (k i : Iter) (p : Ver) (t : Int)
+    (hwf : wf T idle Cfg.init (pre ++ .event k :: (mid ++ .event i :: post)) = true)
+    (hk : k.patched = some p)
+    (hran : (outcomeAt T (exec T Cfg.init (pre ++ .event k :: mid)) i).handlers = some t) :
+    ∃ (a : List Step) (j : Iter) (q : Ver) (b : List Step),
+      pre ++ .event k :: mid = a ++ .event j :: b ∧ pre.length ≤ a.length ∧ j.patched = some q ∧
+      (∀ st ∈ b, st.patched = none) ∧ k.tp ≤ j.tp ∧
+      (some q ∈ b.map Step.ver ++ [i.ver] ∨ j.tp + T ≤ t) := by
+  rcases last_patch_split mid with hnone | ⟨a', x, q, b, hmid, hx, hb⟩
+  · exact ⟨pre, k, p, mid, rfl, Nat.le_refl _, hk, hnone, Int.le_refl _,
+      barrier T idle pre mid post k i p t hwf hk hnone hran⟩
+  · have hlist : pre ++ .event k :: mid = (pre ++ .event k :: a') ++ .event x :: b := by
+      rw [hmid]; simp
+    have hwf' : wf T idle Cfg.init ((pre ++ .event k :: a') ++ .event x :: (b ++ .event i :: post)) = true := by
+      have : (pre ++ .event k :: a') ++ .event x :: (b ++ .event i :: post)
+          = pre ++ .event k :: (mid ++ .event i :: post) := by rw [hmid]; simp
+      rw [this]; exact hwf
+    have hran' : (outcomeAt T (exec T Cfg.init ((pre ++ .event k :: a') ++ .event x :: b)) i).handlers = some t := by
+      rw [← hlist]; exact hran
+    have hb' := barrier T idle (pre ++ .event k :: a') b post x i q t hwf' hx hb hran'
+    -- k.tp ≤ k.tret = clock after k ≤ clock before x ≤ x.now ≤ x.tp
+    have htp : k.tp ≤ x.tp := by
+      have h1 : wf T idle Cfg.init (pre ++ .event k :: (a' ++ .event x :: (b ++ .event i :: post))) = true := by
+        have : pre ++ .event k :: (a' ++ .event x :: (b ++ .event i :: post))
+            = pre ++ .event k :: (mid ++ .event i :: post) := by rw [hmid]; simp
+        rw [this]; exact hwf
+      obtain ⟨_, hokk, hrest⟩ := wf_split h1
+      obtain ⟨hwfa, hokx, _⟩ := wf_split hrest
+      have hk' := okStep_event hokk
+      have hx' := okStep_event hokx
+      have hm : k.tret ≤ (exec T (next T (exec T Cfg.init pre) (.event k)) a').clock :=
+        clock_mono_exec (T := T) (idle := idle) a' _ hwfa
+      omega
+    refine ⟨pre ++ .event k :: a', x, q, b, hlist, ?_, hx, hb, htp, hb'⟩
+    simp only [List.length_append, List.length_cons]; omega
 
 /-- With the per-object order of the watch stream (versions dequeued earlier are not newer than the
     one dequeued now — C01/C19), "the patched version was dequeued" means the view is not older than
